@@ -58,3 +58,99 @@ Theorem c02_no_shared_synchronisation :
   Gen.SyncOps.sync_upstreams_connect = "ul.mutex.Lock;ul.mutex.Lock;ul.mutex.Unlock;ul.mutex.Unlock"%string.
 Proof. repeat split; reflexivity. Qed.
 Print Assumptions c02_no_shared_synchronisation.
+
+(* ================================================================================================================================
+   The server's per-session handler and the piping of one logical connection, with every resource and its owner explicit (Mux/Handler.v:
+   streams, target connections, the accept loop, one handler goroutine per stream, two copy loops per piped connection, the report
+   channels; every goroutine steps through the statements of the Go code under an arbitrary schedule and an arbitrary environment).
+   `shape_ok` admits exactly the code as it is (every switch read from the source on every run, see c02_handler_source_facts), with three
+   switches left open because the statements do not depend on them. *)
+From SA Require Import Mux.Handler Mux.Handler_proofs.
+From SA Require Gen.HandlerShape.
+
+(* one obligation per switch the model takes from the source *)
+Theorem c02_handler_fact_goroutine_serves_accepted_stream : Gen.HandlerShape.accept_goroutine_gets_accepted_stream = true.
+Proof. reflexivity. Qed.
+Theorem c02_handler_fact_error_path_closes_own_parameter :
+  Gen.HandlerShape.accept_error_path_closes_own_param = true /\ Gen.HandlerShape.accept_error_path_closes = "param"%string.
+Proof. split; reflexivity. Qed.
+Theorem c02_handler_fact_deferred_close_on_parameter : Gen.HandlerShape.mux_deferred_close_on_param = true.
+Proof. reflexivity. Qed.
+Theorem c02_handler_fact_no_slot_semaphore : Gen.HandlerShape.accept_slot_capacity = 0%N.
+Proof. reflexivity. Qed.
+Theorem c02_handler_fact_no_lock_around_dial : Gen.HandlerShape.mux_handler_locks_around_dial = false.
+Proof. reflexivity. Qed.
+Theorem c02_handler_fact_accept_loop_on_its_own_goroutine : Gen.HandlerShape.handle_connection_starts_accept_loop = true.
+Proof. reflexivity. Qed.
+Theorem c02_handler_source_facts : shape_ok code_shape = true.
+Proof. reflexivity. Qed.
+
+(* FRAME. In every reachable state, an event of logical connection i - a step of its handler goroutine or of one of its copy loops, or
+   something its own peers do - leaves the record of every other connection (its stream, its target connection, its goroutines' program
+   counters, its report channels) and the session's own state exactly as they were, and every close it makes acts on i's stream or i's
+   target connection: whatever i's outcome is (refused, dial failed late, peer dropped, pipe error). *)
+Theorem c02_handler_frame : forall sh evs e i, shape_ok sh = true -> ev_conn e = Some i ->
+  let s := run sh evs in
+  (forall j, j <> i -> nth_error (g_conns (step sh s e)) j = nth_error (g_conns s) j) /\ same_globals s (step sh s e) /\
+  exists rs, Forall (own_res i) rs /\ g_log (step sh s e) = g_log s ++ map (fun r => (AHand i, r)) rs.
+Proof. exact frame_run. Qed.
+(* ... and over a whole history: every close ever made was made by the owner of what it closed (a handler: its own stream or target
+   connection; the accept loop: the session). *)
+Theorem c02_handler_closes_are_own : forall sh evs, shape_ok sh = true -> forall x, In x (g_log (run sh evs)) -> fst x = owner (snd x).
+Proof. exact closes_are_own_run. Qed.
+
+(* INDEPENDENCE. What connection j can do next (which of its goroutines is enabled) and what becomes of it is a function of j's own record
+   and of the session's fate - of nothing that belongs to another connection: two reachable states that agree on that view of j agree on
+   every event of j. (A session-wide lock or semaphore in the model makes this false: c02_handler_dial_lock_refuted,
+   c02_handler_slot_leak_refuted.) *)
+Theorem c02_handler_independent : forall sh evs evs' e j, shape_ok sh = true -> ev_conn e = Some j ->
+  let s := run sh evs in let s' := run sh evs' in
+  view s j = view s' j -> view (step sh s e) j = view (step sh s' e) j /\ enabled sh s e = enabled sh s' e.
+Proof. exact independent_run. Qed.
+(* ... and the accept loop takes up the oldest waiting stream with its next step, whatever state the other connections are in. *)
+Theorem c02_handler_accept_serves : forall sh evs b j, shape_ok sh = true ->
+  let s := run sh evs in
+  g_acc s = AAccept -> g_dead s = Alive -> g_closed s = false -> first_pending (g_conns s) 0 = Some j ->
+  exists c, nth_error (g_conns s) j = Some c /\ nth_error (g_conns (step sh s (SAccept b))) j = Some (set_h c HPeek) /\
+            g_acc (step sh s (SAccept b)) = AAccept /\
+            forall k, k <> j -> nth_error (g_conns (step sh s (SAccept b))) k = nth_error (g_conns s) k.
+Proof. exact accept_serves_run. Qed.
+
+Example c02_handler_hypotheses_meet :
+  let s := script code_shape [EOpen; ESelect 0 true; EOpen; ESelect 1 true; EDial 1 true; EOpen; ESelect 2 false; EOpen] in
+  view s 1 = view (script code_shape [EOpen; EOpen; ESelect 1 true; EDial 1 true; EAppClose 0]) 1 /\
+  is_hpipe (cn s 1) = true /\ k_h (cn s 0) = HDial /\ k_h (cn s 2) = HNeg /\ k_h (cn s 3) = HPeek /\ enabled code_shape s (ETgEof 1) = true.
+Proof. vm_compute. repeat split. Qed.
+
+(* The defects this code has been the target of, each refuted on the variant that has it - and the same history on the code as it is. *)
+Theorem c02_handler_closes_latest_refuted :
+  let s := script (variant DClosesLatest) late_fail_history in
+  reach (variant DClosesLatest) s /\ logged s (AHand 0) (RStream 1) = true /\
+  ended s (cn s 1) = false /\ is_hdone (cn s 1) = true /\ s_srv_closed (k_s (cn s 1)) = true /\ t_closed (k_t (cn s 1)) = true /\
+  let t := script intended late_fail_history in
+  is_hpipe (cn t 1) = true /\ s_srv_closed (k_s (cn t 1)) = false /\ logged t (AHand 0) (RStream 1) = false /\ logged t (AHand 0) (RStream 0) = true.
+Proof. exact closes_latest_refuted. Qed.
+Theorem c02_handler_dial_lock_refuted :
+  let sh := variant DDialLock in
+  let s := script sh slow_dial_history in
+  let s' := step sh (step sh s (EDial 0 true)) (SHand 0 false) in
+  reach sh s /\ reach sh s' /\ quiet sh s = true /\ k_h (cn s 1) = HLock /\ k_fate (cn s 1) = Some true /\
+  view s 1 = view s' 1 /\ enabled sh s (SHand 1 false) = false /\ enabled sh s' (SHand 1 false) = true /\
+  is_hpipe (cn (script intended slow_dial_history) 1) = true.
+Proof. exact dial_lock_refuted. Qed.
+Theorem c02_handler_slot_leak_refuted :
+  let s := script (variant DSlotLeak) refusals_then_open in
+  reach (variant DSlotLeak) s /\ quiet (variant DSlotLeak) s = true /\ g_dead s = Alive /\ g_acc s = ASlot /\
+  first_pending (g_conns s) 0 = Some 2 /\ is_hdone (cn s 0) = true /\ is_hdone (cn s 1) = true /\
+  (forall evs, forallb is_sched evs = true -> run_from (variant DSlotLeak) s evs = s) /\
+  is_hpipe (cn (script intended refusals_then_open) 2) = true.
+Proof. exact slot_leak_refuted. Qed.
+
+Print Assumptions c02_handler_source_facts.
+Print Assumptions c02_handler_frame.
+Print Assumptions c02_handler_closes_are_own.
+Print Assumptions c02_handler_independent.
+Print Assumptions c02_handler_accept_serves.
+Print Assumptions c02_handler_closes_latest_refuted.
+Print Assumptions c02_handler_dial_lock_refuted.
+Print Assumptions c02_handler_slot_leak_refuted.
